@@ -30,70 +30,132 @@ def _entry_funcs(cx, port):
     return out
 
 
-def rule_ag_route(cx, rep, port):
-    """each aggregate entry point passes the aggregator class of the same (normalised) name to init_aggregator; COUNT passes 1;
-    pass-through when stage >= 2"""
-    p = cx.port(port)
-    entries = _entry_funcs(cx, port)
-    rep.require_count('aggregate entry points', len(entries), 9, (p.files[cx.engine_mod(port)], 0))
-    classes = {c.name for c in roles.aggregators(p, cx.engine_mod(port))}
-    for name, fd in sorted(entries.items()):
-        rets = [r for r in walk_no_nested(fd) if isinstance(r, ast.Return)]
-        if len(rets) != 1 or not isinstance(rets[0].value, ast.IfExp):
-            rep.undecided(name, fd, 'entry point is not a single conditional return')
+def _entry_summaries(cx, port, name, fd, init_fd):
+    """paths of an aggregate entry point with the call of the registration helper expanded: [(conds, stores, calls, returned value)]"""
+    from .. import pathsem
+    ps = pathsem.paths(fd)
+    if ps is None:
+        return None
+    out = []
+    for q in ps:
+        if q.kind != 'return':
             continue
-        ife = rets[0].value
-        # test: query_context.aggregation_stage < 2
-        t = ife.test
-        ok_test = isinstance(t, ast.Compare) and (dotted(t.left) or '').endswith('aggregation_stage') and isinstance(t.comparators[0], ast.Constant) and ((isinstance(t.ops[0], ast.Lt) and t.comparators[0].value == 2) or (isinstance(t.ops[0], ast.LtE) and t.comparators[0].value == 1))
-        init, passthru = ife.body, ife.orelse
-        if not ok_test:
-            rep.violated(name + ' stage test', t, 'the stage test `{}` is not `aggregation_stage < 2`: tokens are created in the accumulation stage (or never)'.format(node_text(t)))
-            continue
-        if not (isinstance(init, ast.Call) and dotted(init.func) == 'init_aggregator' and init.args):
-            rep.violated(name + ' routing', rets[0], '{} does not register an aggregator with init_aggregator in the discovery stage'.format(name))
-            continue
-        cls = dotted(init.args[0])
-        params = [a.arg for a in fd.args.args]
-        val = init.args[1] if len(init.args) > 1 else None
-        if cls not in classes:
-            rep.violated(name + ' routing', init, '{} registers `{}`, which is not an aggregator class'.format(name, cls))
-            continue
-        if _norm(cls) != _norm(name):
-            rep.violated(name + ' routing', init, '{} is routed to {}: every {}(...) in a query computes the other aggregate'.format(name, cls, name))
-            continue
-        if name == 'COUNT':
-            ok = isinstance(val, ast.Constant) and val.value == 1 and isinstance(passthru, ast.Constant) and passthru.value == 1
-            rep.decide(ok, name + ' routing', init, 'COUNT -> CountAggregator with constant 1 in both stages', 'COUNT does not pass the constant 1 in both stages')
+        v = q.value
+        if init_fd is not None and isinstance(v, ast.Call) and dotted(v.func) == init_fd.name:
+            params = [a.arg for a in init_fd.args.args]
+            env = {prm: arg for prm, arg in zip(params, v.args)}
+            for prm, dflt in zip(params[len(params) - len(init_fd.args.defaults):], init_fd.args.defaults):
+                env.setdefault(prm, dflt)
+            hps = pathsem.paths_with_env(init_fd, env)
+            if hps is None:
+                return None
+            for x in hps:
+                if x.kind == 'return':
+                    out.append((q.conds + x.conds, q.stores + x.stores, q.calls + x.calls, x.value, True))
         else:
-            ok = val is not None and is_name(val, params[0]) and is_name(passthru, params[0])
-            rep.decide(ok, name + ' routing', init, '{} -> {} with its argument; pass-through in stage 2'.format(name, cls), '{} does not hand its own argument to the aggregator / pass it through in the accumulation stage'.format(name))
-            if name == 'ARRAY_AGG':
-                ok_pp = len(init.args) == 3 and len(params) == 2 and is_name(init.args[2], params[1])
-                rep.decide(ok_pp, name + ' post_proc', init, 'post-processing function is forwarded', 'ARRAY_AGG does not forward its post-processing function')
+            out.append((q.conds, q.stores, q.calls, v, False))
+    return out
+
+
+def rule_ag_route(cx, rep, port):
+    """each aggregate entry point, in the discovery stage (aggregation_stage < 2): sets the stage to 1, registers a *new instance of
+    the aggregator class of the same (normalised) name* and returns a token carrying the index that instance gets and the argument
+    (COUNT: the constant 1); in the accumulation stage it passes its argument through.  Decided on the path summaries of the entry
+    point with the registration helper expanded, so it does not matter who constructs the instance or how the helper is called."""
+    from .. import pathsem
+    p = cx.port(port)
+    mod = cx.engine_mod(port)
+    entries = _entry_funcs(cx, port)
+    rep.require_count('aggregate entry points', len(entries), 9, (p.files[mod], 0))
+    classes = {c.name for c in roles.aggregators(p, mod)}
+    init_fd = p.func(mod, 'compile_and_run.init_aggregator' if port == 'py' else 'init_aggregator', required=False)
+    for name, fd in sorted(entries.items()):
+        params = [a.arg for a in fd.args.args]
+        sums = _entry_summaries(cx, port, name, fd, init_fd)
+        if sums is None:
+            rep.undecided(name, fd, 'entry point is not summarisable as paths')
+            continue
+
+        def stage(conds):
+            for atom, pol in pathsem.atoms(conds):
+                if isinstance(atom, ast.Compare) and len(atom.ops) == 1 and (dotted(atom.left) or '').endswith('aggregation_stage') and isinstance(atom.comparators[0], ast.Constant):
+                    c_ = atom.comparators[0].value
+                    if (isinstance(atom.ops[0], ast.Lt) and c_ == 2) or (isinstance(atom.ops[0], ast.LtE) and c_ == 1):
+                        return 'discover' if pol else 'accumulate'
+                    if (isinstance(atom.ops[0], ast.GtE) and c_ == 2) or (isinstance(atom.ops[0], ast.Gt) and c_ == 1) or (isinstance(atom.ops[0], ast.Eq) and c_ == 2):
+                        return 'accumulate' if pol else 'discover'
+                    return 'other:' + node_text(atom, 60)
+            return None
+        problem = None
+        n_disc = n_acc = 0
+        pp_forwarded = False
+        for conds, stores, calls, value, expanded in sums:
+            stg = stage(conds)
+            if stg is None or stg.startswith('other'):
+                problem = ('stage test', 'the stage test of {} is not `aggregation_stage < 2` ({}): tokens are created in the accumulation stage (or never)'.format(name, stg))
+                break
+            want_val = 1 if name == 'COUNT' else params[0]
+
+            def is_arg(e):
+                return (const_value(e) == 1) if name == 'COUNT' else is_name(e, params[0])
+            if stg == 'accumulate':
+                n_acc += 1
+                if not is_arg(value):
+                    problem = ('routing', '{} does not pass its argument through in the accumulation stage (returns `{}`)'.format(name, node_text(value, 60)))
+                    break
+                continue
+            n_disc += 1
+            regs = [c for c in calls if isinstance(c, ast.Call) and isinstance(c.func, ast.Attribute) and c.func.attr in ('append', 'push') and (dotted(c.func.value) or '').endswith('functional_aggregators')]
+            if len(regs) != 1:
+                problem = ('routing', '{} does not register exactly one aggregator in the discovery stage'.format(name))
+                break
+            inst = regs[0].args[0] if regs[0].args else None
+            cls = dotted(inst.func) if isinstance(inst, ast.Call) else None
+            if cls not in classes:
+                problem = ('routing', '{} registers `{}`, which is not a new instance of an aggregator class'.format(name, node_text(inst, 60) if inst is not None else None))
+                break
+            if _norm(cls) != _norm(name):
+                problem = ('routing', '{} is routed to {}: every {}(...) in a query computes the other aggregate'.format(name, cls, name))
+                break
+            if name == 'ARRAY_AGG' and len(params) == 2:
+                if inst.args and is_name(inst.args[0], params[1]):
+                    pp_forwarded = True
+                elif not any(isinstance(a_, ast.Compare) and is_name(a_.left, params[1]) and is_none(a_.comparators[0]) and ((isinstance(a_.ops[0], (ast.Is, ast.Eq)) and pol_) or (isinstance(a_.ops[0], (ast.IsNot, ast.NotEq)) and not pol_)) for a_, pol_ in conds):
+                    problem = ('post_proc', 'ARRAY_AGG does not forward its post-processing function')
+                    break
+            if not any((dotted(t_) or '').endswith('aggregation_stage') and const_value(v_) == 1 for t_, v_ in stores):
+                problem = ('stage', '{} does not set aggregation_stage to 1 when it registers its aggregator'.format(name))
+                break
+            tok = value
+            ok_tok = isinstance(tok, ast.Call) and dotted(tok.func) == 'RBQLAggregationToken' and len(tok.args) == 2 and isinstance(tok.args[0], ast.Call) and dotted(tok.args[0].func) == 'len' and (dotted(tok.args[0].args[0]) or '').endswith('functional_aggregators') and is_arg(tok.args[1])
+            if not ok_tok:
+                problem = ('token', '{} does not return a token with the index of the registered aggregator and its own argument (`{}`)'.format(name, node_text(tok, 80)))
+                break
+        if problem is None and name == 'ARRAY_AGG' and len(params) == 2 and not pp_forwarded:
+            problem = ('post_proc', 'ARRAY_AGG does not forward its post-processing function')
+        if problem is not None:
+            rep.violated('{} {}'.format(name, problem[0]), fd, problem[1])
+        elif n_disc and n_acc:
+            rep.holds(name + ' routing', fd, '{}: discovery -> stage 1, new {} instance, token(index, argument); accumulation -> pass-through'.format(name, _norm(name)))
+        else:
+            rep.undecided(name + ' routing', fd, 'discovery / accumulation paths not both found')
 
 
 def rule_ag_init(cx, rep, port):
-    """init_aggregator: stage := 1; token id = number of registered aggregators *before* appending; instance appended"""
+    """the token index is taken before the instance is appended (the index the instance gets)"""
     p = cx.port(port)
     mod = cx.engine_mod(port)
-    fd = p.func(mod, 'compile_and_run.init_aggregator' if port == 'py' else 'init_aggregator')
-    st1 = [n for n in walk_no_nested(fd) if isinstance(n, ast.Assign) and (dotted(n.targets[0]) or '').endswith('aggregation_stage')]
-    rep.decide(len(st1) == 1 and isinstance(st1[0].value, ast.Constant) and st1[0].value.value == 1, 'stage', st1[0] if st1 else fd, 'aggregation_stage := 1', 'init_aggregator does not set aggregation_stage to 1')
-    tok = [n for n in walk_no_nested(fd) if isinstance(n, ast.Assign) and isinstance(n.value, ast.Call) and dotted(n.value.func) == 'RBQLAggregationToken']
-    apps = [c for c in walk_no_nested(fd) if isinstance(c, ast.Call) and isinstance(c.func, ast.Attribute) and c.func.attr in ('append', 'push') and (dotted(c.func.value) or '').endswith('functional_aggregators')]
-    if len(tok) != 1 or not apps:
-        rep.undecided('token', fd, 'token creation / registration not recognised')
-        return
-    t = tok[0].value
-    ok_id = len(t.args) == 2 and isinstance(t.args[0], ast.Call) and dotted(t.args[0].func) == 'len' and (dotted(t.args[0].args[0]) or '').endswith('functional_aggregators') and is_name(t.args[1], fd.args.args[1].arg)
-    before = all(tok[0].lineno < a.lineno for a in apps)
-    rep.decide(ok_id and before, 'token id', tok[0], 'token id = index the aggregator will get in functional_aggregators; value = the argument', 'the token id is not the index of the aggregator being registered (len(functional_aggregators) taken before the append) or the value is not the argument')
-    gen = fd.args.args[0].arg
-    inst = all(isinstance(a.args[0], ast.Call) and is_name(a.args[0].func, gen) for a in apps)
-    rep.decide(inst, 'instance', apps[0], 'a new instance of the aggregator class is registered per call', 'init_aggregator does not register a fresh instance of the given aggregator class')
-    rets = [r for r in walk_no_nested(fd) if isinstance(r, ast.Return)]
-    rep.decide(len(rets) == 1 and is_name(rets[0].value, tok[0].targets[0].id), 'result', rets[0] if rets else fd, 'returns the token', 'init_aggregator does not return the token')
+    fd = p.func(mod, 'compile_and_run.init_aggregator' if port == 'py' else 'init_aggregator', required=False)
+    scopes = [fd] if fd is not None else list(_entry_funcs(cx, port).values())
+    n = 0
+    for sc in scopes:
+        toks = [c for c in walk_no_nested(sc) if isinstance(c, ast.Call) and dotted(c.func) == 'RBQLAggregationToken']
+        apps = [c for c in walk_no_nested(sc) if isinstance(c, ast.Call) and isinstance(c.func, ast.Attribute) and c.func.attr in ('append', 'push') and (dotted(c.func.value) or '').endswith('functional_aggregators')]
+        for t in toks:
+            n += 1
+            before = all((t.lineno, t.col_offset) < (a.lineno, a.col_offset) for a in apps)
+            rep.decide(before and bool(apps), '{} token id'.format(sc.name), t, 'len(functional_aggregators) is taken before the append: it is the index the new aggregator gets', 'the token index is computed after the aggregator was appended: every token points one past its aggregator')
+    rep.require_count('token constructions', n, 1, (p.files[mod], 0))
 
 
 def _stage1_columns(rep, lp, res, key_name, iff):
